@@ -175,6 +175,29 @@ theorem feed_ignores (cont : Bool) (t : Nat) (rs : List Resp) : ∀ (h : HState)
       · simp only [hc, ↓reduceIte]
         exact ih _
 
+/-- a dispatcher that stops at the first `Finished` ends with the first acceptable
+response of the stream as `foundBlock`, whatever precedes it -/
+theorem feed_first_accept (t : Nat) (rs : List Resp) (r : Resp) : ∀ (h : HState),
+    rs.find? (fun x => decide (decision t x = .accept)) = some r →
+    (feed false t h rs).1.found = some r := by
+  induction rs with
+  | nil => intro h hf; simp at hf
+  | cons a rs ih =>
+    intro h hf
+    simp only [feed]
+    by_cases hd : decision t a = .accept
+    · have ha : a = r := by simpa [List.find?, hd] using hf
+      subst ha
+      have hp : (handle t h a).2 = .finished := (handle_progress t h a).mpr hd
+      split
+      · simp only [handle_found, hd, ↓reduceIte]
+      · rename_i hn; exact absurd ⟨hp, by simp⟩ hn
+    · have hf' : rs.find? (fun x => decide (decision t x = .accept)) = some r := by
+        simpa [List.find?, hd] using hf
+      split
+      · rename_i hy; exact absurd ((handle_progress t h a).mp hy.1) hd
+      · exact ih _ hf'
+
 /-! ### the cache (`Lru.Spec`) -/
 
 theorem evict_sub (cap : Nat) (bad : List Nat) (needed : Nat) (ll : List Lru.Entry) (ev : Bool) :
